@@ -295,13 +295,26 @@ fn execute(prog: Program) -> Outcome {
                 arb.exec("arbiter");
                 let mut wr = Session::admin(&dbs[node]);
                 wr.exec("use-db a tok");
+                // (two ordinary client operations of their own: each must be followed by silence as well)
+                let mut stuck: Option<String> = None;
                 wr.exec(&format!("set c base{}", uniq));
                 if !w.settle(200, 4_000) {
-                    break;
+                    stuck = Some(format!("set c base{}", uniq));
                 }
-                wr.exec(&format!("set-safe c 1 first{}", uniq));
-                if !w.settle(200, 4_000) {
-                    break;
+                if stuck.is_none() {
+                    wr.exec(&format!("set-safe c 1 first{}", uniq));
+                    if !w.settle(200, 4_000) {
+                        stuck = Some(format!("set-safe c 1 first{}", uniq));
+                    }
+                }
+                if let Some(cmdline) = stuck {
+                    let n = with(|k| k.net.line_log.as_ref().map(|l| l.len()).unwrap_or(0));
+                    out.violations.push(Violation::new(
+                        "self-sustaining",
+                        format!("set-on-arbiter-db@{}", role),
+                        format!("op #{}: `{}` on the {} (arbiter database, arbiter client on node {}): the cluster is still exchanging messages 4 s later ({} lines so far)", oi, cmdline, role, rn + 1, n),
+                    ));
+                    return out;
                 }
                 with(|k| k.net.line_log.as_mut().unwrap().clear());
                 // the conflicting write (stale version) -- this is client operation #1
